@@ -544,15 +544,16 @@ func drawString(t *rapid.T, allowInvalid bool) []byte {
 	return []byte(gen.ValidString(40).Draw(t, "str"))
 }
 
-var leafKinds = []string{"int", "string", "float64", "jsonnum", "bytes", "bool", "float32", "nil"}
-var allKinds = append([]string{"map", "list", "map", "list"}, leafKinds...)
+// simplest kinds first: rapid shrinks towards the front of the list
+var leafKinds = []string{"nil", "bool", "int", "float64", "string", "jsonnum", "bytes", "float32", "int", "string"}
+var containerKinds = []string{"list", "map"}
 var weightedIntKinds = []string{"int64", "uint64", "int", "uint", "int64", "uint64", "int32", "uint32", "int16", "uint16", "int8", "uint8"}
 
 func drawJV(t *rapid.T, depth int, budget *int) JV {
 	*budget--
-	kinds := allKinds
-	if depth <= 0 || *budget <= 0 {
-		kinds = leafKinds
+	kinds := leafKinds
+	if depth > 0 && *budget > 0 && rapid.IntRange(0, 99).Draw(t, "nest?") >= 25 {
+		kinds = containerKinds
 	}
 	switch rapid.SampledFrom(kinds).Draw(t, "kind") {
 	case "nil":
